@@ -33,6 +33,8 @@ type Engine struct {
 	deps      map[string]map[string]bool
 	loadTime  float64
 	scratch   string
+	allocCache map[*ssa.Function]allocSet
+	allocKnown map[*ssa.Function]bool
 }
 
 func LoadEngine(repo string) (*Engine, error) {
@@ -306,7 +308,8 @@ func (e *Engine) Verify(name string) (run *FuncRun, err error) {
 		bindResults(post, rv, resultNames(fn, c), fn.Signature.Results())
 		for j, en := range c.Ensures {
 			g := post.evalBool(en.Expr)
-			fr.oblige("ensures", j+1, suffix, en.Tags, rst, g, en.Text, pos)
+			// several quantified conjuncts in one postcondition: one query per conjunct (see call.go)
+			fr.obligeSplit("ensures", j+1, suffix, en.Tags, rst, g, en.Text, pos)
 		}
 		fr.frameCheck("frame", run.entry, rst, locs, ftags, pos, suffix)
 	}
